@@ -12,7 +12,7 @@
 From Coq Require Import List Arith Bool.
 Import ListNotations.
 From ZI Require Import Model.Ro Model.Adapter Model.Lookup Model.RegSys Model.RegPrim Spec.RegChain Proofs.RegChain
-     Proofs.RegChainMixed Gen.RegChainKernel Proofs.RegChainKernel.
+     Proofs.RegChainMixed Gen.RegChainKernel Proofs.RegChainKernel Model.VerifyCPrims Gen.VerifyC Proofs.VerifyC.
 
 (* (a) push flavour: after every history the cached ``ro`` of EVERY registry is the C3 order of
    the current base graph — whichever registry's __bases__ were assigned, at any level *)
@@ -282,6 +282,43 @@ Theorem C06_generated_init_eq_model : forall W call s r fl bs,
                             (rs_vgen (get s r)) (rs_flavour (get s r)))) r.
 Proof. exact init_eq. Qed.
 Print Assumptions C06_generated_init_eq_model.
+
+(* ------------------------------------------------------------------ the C accelerator
+   Gen/VerifyC.v is regenerated on every run from _zope_interface_coptimizations.c by the fail-closed
+   extractor harness/translate/verify_c.py (data level: which registries' generations are read, how they
+   are compared, what is stored; [cst] = a system + whether the two C slots are NULL). *)
+
+(* _generations_tuple(ro) reads the generation of every item of ro, in order *)
+Theorem C06_generated_c_generations_eq_model : forall st l, gen_c_generations_tuple st l = gens (c_sys st) l.
+Proof. exact c_generations_tuple_eq. Qed.
+Print Assumptions C06_generated_c_generations_eq_model.
+
+(* verify_changed (the C VerifyingBase.changed): caches dropped, the snapshot is exactly ro[1:], the
+   generations are read over exactly that snapshot, both slots end filled — the Python kernel *)
+Theorem C06_generated_c_changed_eq_model : forall st r,
+  gen_c_verify_changed st r = mkCst (g_VerifyingBase_changed (c_sys st) r) false false.
+Proof. exact c_verify_changed_eq. Qed.
+Print Assumptions C06_generated_c_changed_eq_model.
+
+(* with the accelerator, the verifying lookup object's changed() is the model's lookup_changed *)
+Theorem C06_generated_c_lookup_changed_eq_model : forall b n1 n2 s r, rs_flavour (get s r) = Verifying ->
+  g_AdapterLookupBase_changed (fun s r => c_sys (gen_c_verify_changed (mkCst s n1 n2) r))
+                              (g_refresh_ro (length s) s r) r = lookup_changed b s r.
+Proof. exact c_lookup_changed_eq. Qed.
+Print Assumptions C06_generated_c_lookup_changed_eq_model.
+
+(* _verify: element-wise comparison of the stored generations with those read over the stored
+   _verify_ro, self.changed(None) on a mismatch (or on a NULL slot) = the model's verify *)
+Theorem C06_generated_c_verify_eq_model : forall b s r, rs_flavour (get s r) = Verifying ->
+  c_sys (gen_c_verify (fun st r => mkCst (lookup_changed b (c_sys st) r) false false) (mkCst s false false) r)
+  = verify s r.
+Proof. exact c_verify_eq_model. Qed.
+Print Assumptions C06_generated_c_verify_eq_model.
+
+Theorem C06_generated_c_verify_null_slot_calls_changed : forall chg st r,
+  c_null_ro st = true \/ c_null_gens st = true -> gen_c_verify chg st r = chg st r.
+Proof. exact c_verify_null. Qed.
+Print Assumptions C06_generated_c_verify_null_slot_calls_changed.
 
 (* ------------------------------------------------------------------ non-vacuity witnesses *)
 (* world: spec 1 is an interface extending Interface (= spec 0) *)
